@@ -103,7 +103,7 @@ def _mutate_list(lst, how):
         lst[:] = how[1]
 
 
-def _arch_ops(obj, seq, new=True, cont=False, held=None):
+def _arch_ops(obj, seq, new=True, cont=False, held=None, quiet=False):
     """Compile a call sequence on a LayeredArchitecture into ops with model annotations.
     cont: the caller goes on using the object after a rejected call (the rejected call
     supplied nothing, so the definition must be what it was).
@@ -134,7 +134,14 @@ def _arch_ops(obj, seq, new=True, cont=False, held=None):
                     break
             else:
                 model.apply(m, av)
+        if quiet:
+            continue  # nobody looks at the definition while it is being built (only at the end)
         # observation steps; what they must show is decided by the judge's own model
+        ops.append({"op": "str", "obj": obj})
+        ops.append({"op": "mapping", "obj": obj})
+        for layer, _ in model.listing():
+            ops.append({"op": "getitem", "obj": obj, "k": layer})
+    if quiet:
         ops.append({"op": "str", "obj": obj})
         ops.append({"op": "mapping", "obj": obj})
         for layer, _ in model.listing():
@@ -367,7 +374,7 @@ def generate(seed, index):
             ops = _rule_ops(f"R{c}", rule_enum[seqno], watch=("SA", ["LA", "LB"]))
         elif roll < 0.68:
             kind = "random_arch"
-            ops, _ = _arch_ops(f"A{c}", _random_arch_seq(rng, rng.randint(3, 12)))
+            ops, _ = _arch_ops(f"A{c}", _random_arch_seq(rng, rng.randint(3, 12)), quiet=rng.random() < 0.3)
         elif roll < 0.72:
             # F14: the caller keeps, changes and re-uses the lists it passes; sometimes the same
             # list goes to two definitions
@@ -390,7 +397,7 @@ def generate(seed, index):
                 seq = [rng.choice(ARCH_ALPHABET) for _ in range(rng.randint(3, 9))]
             else:
                 seq = _random_arch_seq(rng, rng.randint(4, 14), stop=False)
-            ops, _ = _arch_ops(f"A{c}", seq, cont=True)
+            ops, _ = _arch_ops(f"A{c}", seq, cont=True, quiet=rng.random() < 0.3)
         elif roll < 0.85:
             kind = "random_rule"
             ops = _rule_ops(f"R{c}", _random_rule_seq(rng, rng.randint(2, 9), "SA", ["LA", "LB"]),
